@@ -100,11 +100,11 @@ TEXTS["C13"] = dict(
     level_note=TRUST2 + " Faults during commit are outside this property (C13 covers prepare/execute/contribute).")
 TEXTS["C16"] = dict(
     technique="deterministic cluster simulation: complete caller-identity x message x session-state table through the real receiver handlers (fake clock for expiry) + share-ownership monitor on the simulated transport",
-    level_text="The 360-case table {peer, peer outside the generation, fully-permitted ordinary client, empty, unknown, peer name in other case, with a suffix, as host of a longer domain name, with a trailing dot, a prefix of it, with a port, with a leading space} x {prepare, execute, contribute, commit, abort} x "
-               "{none, prepared, executed, committed, aborted, expired} is enumerated completely on a 4-instance cluster (3 participants) of real services: a non-peer must get an error and no share, and "
+    level_text="The 630-case table {peer, peer outside the generation, fully-permitted ordinary client, empty, unknown, peer name in other case, with a suffix, as host of a longer domain name, with a trailing dot, a prefix of it, with a port, with a leading space} x {prepare, execute, contribute, commit, abort} x "
+               "{none, prepared, executed, committed, aborted, expired} (and, for the non-peer callers, once more after a genuine peer's earlier Prepare for another account named the caller among its participants) is enumerated completely on a 4-instance cluster (3 participants) of real services: a non-peer must get an error and no share, and "
                "the legitimate run must continue from that state to a committed account on every participant (so a refused message created, deleted or altered nothing). A monitor "
                "checks every contribution the transport carries (here and in seeded generations with drawn n, t and id sets): the share equals the originator's vector evaluated at the "
-               "recipient's id and at no other participant's id; a peer replaying a consistent contribution gets only its own share back. A sixteenth worker runs a 50-case credential x message "
+               "recipient's id and at no other participant's id; a peer replaying a consistent contribution gets only its own share back. A sixteenth worker runs a 60-case credential x message "
                "table over real gRPC/TLS against an instance whose peers are named like the repository's signer certificates (after a genuine peer has opened the session): only a caller whose "
                "verified leaf certificate names a peer is honoured - a peer's public certificate riding along in a client's chain is not - and the genuine peer's session survives; another worker lets "
                "genuine peers and ordinary clients use that edge at the same time (free-running, ~100 000 requests): no client is ever taken for a peer.",
